@@ -217,7 +217,9 @@ func (c *concretiser) respDirectives(a *Ans) []directive {
 	pad := padOf(a.Sp)
 	for _, f := range a.Fl {
 		if f == "no-cache" && a.Ncf == 1 {
-			ds = append(ds, directive{"no-cache", []string{`"X-Secret"`, `"x-secret"`, `"X-SECRET"`, `"x-other , X-secret"`}[c.rnd.Intn(4)], true})
+			// (the last one also names fields the cache generates itself: those are not the origin's to withhold)
+			ds = append(ds, directive{"no-cache", []string{`"X-Secret"`, `"x-secret"`, `"X-SECRET"`, `"x-other , X-secret"`,
+				`"Age, X-Secret, x-httpcache-status, X-From-Cache"`}[c.rnd.Intn(5)], true})
 			continue
 		}
 		if f == "no-cache" && a.Ncf == 2 { // a validator is among the named fields
